@@ -172,6 +172,26 @@ func genHist(r *Rng, tier string, n int, emit func(string)) {
 			}
 			k = 4 + cr.Intn(12)
 		}
+		if cr.Chance(7) {
+			// a prefix registered (deleted, registered again) AFTER the routes below it: the node that becomes a leaf already
+			// has a static, a parameter and a catch-all child
+			base := Pick(cr, []string{"/files", "/v/{t}", "/a/b"})
+			pool = []string{base + "/", base + "/{id}", base + "/*{path}", base + "/{id}/x", base + "/*{path}/edit", base + "/s", base}
+			methods = methods[:1]
+			for _, i := range cr.Perm(len(pool)-2) {
+				hid++
+				ops = append(ops, fmt.Sprintf("H,%s,%s,%d,%d", methods[0], hx(pool[1+i]), 0, hid))
+			}
+			for _, q := range []string{base + "/", base} {
+				hid++
+				ops = append(ops, fmt.Sprintf("H,%s,%s,%d,%d", methods[0], hx(q), 0, hid))
+				if cr.Bool() {
+					hid++
+					ops = append(ops, "D,"+methods[0]+","+hx(q), fmt.Sprintf("H,%s,%s,%d,%d", methods[0], hx(q), 0, hid))
+				}
+			}
+			k = 2 + cr.Intn(8)
+		}
 		for i := 0; i < k; i++ {
 			m := Pick(cr, methods)
 			p := Pick(cr, pool)
